@@ -55,6 +55,13 @@ M("c02-joint-skip", "C02", C, "        for dist_idx in range(n_dim):\n          
 M("c02-twin-half", "C02", C, "                lower = cdf(coords[dist_idx] - 0.5 * dx, given=cond_value)", "                lower = cdf(coords[dist_idx] - dx / 2, given=cond_value)", expect="pass")
 M("c02-twin-stable", "C02", C, 'kind="mergesort")[::-1]', 'kind="stable")[::-1]', expect="pass")
 
+M("c02-grid-delta0", "C02", C, "            delta = deltas[i]\n            samples = np.arange(min_, max_ + delta, delta)", "            delta = deltas[0]\n            samples = np.arange(min_, max_ + delta, delta)", rules=["C02.grid"])
+M("c02-default-limit-dim", "C02", C, "                (0, marginal_icdf(non_exceedance_p, dim, precision_factor=0.05))", "                (0, marginal_icdf(non_exceedance_p, 0, precision_factor=0.05))", rules=["C02.grid"])
+M("c02-default-delta-dim", "C02", C, "                deltas[i] = (limits[i][1] - limits[i][0]) * relative_cell_size", "                deltas[i] = (limits[0][1] - limits[0][0]) * relative_cell_size", rules=["C02.grid"])
+M("c02-ctor-alpha", "C02", C, "        self.model = model\n        self.alpha = alpha\n        self.limits = limits", "        self.model = model\n        self.alpha = 1 - alpha\n        self.limits = limits", rules=["C02.ctor"])
+M("c01-ctor-alpha", "C01", C, "        self.alpha = alpha\n        self.n_points = n_points\n        super().__init__()\n\n    def _compute(\n        self,\n    ):\n        \"\"\"\n        Calculates coordinates using ISORM.", "        self.alpha = 1 - alpha\n        self.n_points = n_points\n        super().__init__()\n\n    def _compute(\n        self,\n    ):\n        \"\"\"\n        Calculates coordinates using ISORM.", rules=["C01.ctor"])
+M("c04-ctor-late", "C04", C, "        self.allowed_error = allowed_error\n        super().__init__()\n\n    def _compute(self):\n        model = self.model\n        alpha = self.alpha\n        n = self.n\n        deg_step = self.deg_step\n        sample = self.sample\n        allowed_error = self.allowed_error\n\n        if self.model.n_dim != 2:\n            raise NotImplementedError(\n                \"AndContour", "        super().__init__()\n        self.allowed_error = allowed_error\n\n    def _compute(self):\n        model = self.model\n        alpha = self.alpha\n        n = self.n\n        deg_step = self.deg_step\n        sample = self.sample\n        allowed_error = self.allowed_error\n\n        if self.model.n_dim != 2:\n            raise NotImplementedError(\n                \"AndContour", rules=["C04.ctor"])
+
 # ------------------------------------------------------------------ C03
 M("c03-alpha", "C03", C, "        non_exceedance_p = 1 - alpha\n", "        non_exceedance_p = alpha\n", rules=["C03.proj"])
 M("c03-sincos", "C03", C, "z = x * np.cos(angles[i]) + y * np.sin(angles[i])", "z = x * np.sin(angles[i]) + y * np.cos(angles[i])", rules=["C03.proj"])
